@@ -2,6 +2,7 @@
 // usage: xmc <property id> [quick|thorough]      |  xmc replay <file>
 mod cf;
 mod common;
+mod corpus;
 mod props;
 
 use common::*;
@@ -16,8 +17,13 @@ fn main() {
     let cfg = Cfg::from_env(args.get(2).map(|s| s.as_str()));
     let code = match args[1].as_str() {
         "C01" => props::c01::run(&cfg),
+        "C02" => props::c02::run(&cfg),
         "C04" => props::c04::run(&cfg),
+        "C05" => props::c05::run(&cfg),
+        "C07" => props::c07::run(&cfg),
         "C09" => props::c09::run(&cfg),
+        "C17" => props::c17::run(&cfg),
+        "C18" => props::c18::run(&cfg),
         "C16" => props::c16::run(&cfg),
         "replay-eval" => {
             props::c01::replay(&args[2]);
